@@ -458,9 +458,9 @@ safe_call_function_pointer (funptr_t * funp, int num_arg)
     }
   else
     {
-      restore_context (&econ);
-      /* condition was restored to where it was when we came in */
-      pop_n_elems (num_arg);
+      /* the saved stack pointer includes the arguments: drop them like the call does,
+       * as far as the callee has not dropped them already */
+      restore_context_args (&econ, num_arg);
       ret = 0;
       /* same as safe_apply(): a "Too long evaluation" that ends here must not leave the
        * LPC evaluation we were called from with a renewed budget */
